@@ -184,6 +184,68 @@ def urlUnescape (query : Bool) : Bytes → Option Bytes
     else if c == 43 && query then (urlUnescape query rest).map ((32 : UInt8) :: ·)
     else (urlUnescape query rest).map (c :: ·)
 
+
+/-! ## URL query strings: `to_urlquery` / `from_urlquery` (format/text/url.go:35-82) over
+    net/url `Values.Encode` and `ParseQuery`.  A `url.Values` is modelled canonically as an
+    association list sorted by key (Go string order = bytewise), values in insertion order.
+    fq maps a key with one value to a string and a key with several values to an array
+    (`fromURLValues`), and back (`toURLValues`). -/
+
+abbrev QueryVals := List (Bytes × List Bytes)
+
+def ltBytes : Bytes → Bytes → Bool
+  | [], [] => false
+  | [], _ :: _ => true
+  | _ :: _, [] => false
+  | a :: as, b :: bs => if a.toNat < b.toNat then true else if b.toNat < a.toNat then false else ltBytes as bs
+
+/-- the `key=value` pairs in the order Values.Encode writes them: keys sorted, values in order -/
+def queryPairs (q : QueryVals) : List (Bytes × Bytes) := q.flatMap (fun kv => kv.2.map (fun v => (kv.1, v)))
+
+def encodePairs : List (Bytes × Bytes) → Bytes
+  | [] => []
+  | [(k, v)] => urlEscape true k ++ 61 :: urlEscape true v
+  | (k, v) :: rest => urlEscape true k ++ 61 :: urlEscape true v ++ 38 :: encodePairs rest
+
+/-- Values.Encode -/
+def encodeQuery (q : QueryVals) : Bytes := encodePairs (queryPairs q)
+
+/-- strings.Cut(s, sep): the text before the first `sep` and the text after it (none if absent) -/
+def cutAt (sep : UInt8) : Bytes → Bytes × Option Bytes
+  | [] => ([], none)
+  | c :: cs =>
+    if c == sep then ([], some cs)
+    else let (a, b) := cutAt sep cs; (c :: a, b)
+
+/-- `m[key] = append(m[key], value)` on the sorted association list -/
+def appendKV (k v : Bytes) : QueryVals → QueryVals
+  | [] => [(k, [v])]
+  | (k', vs) :: rest =>
+    if k == k' then (k', vs ++ [v]) :: rest
+    else if ltBytes k k' then (k, [v]) :: (k', vs) :: rest
+    else (k', vs) :: appendKV k v rest
+
+/-- parseQuery (url.go): pieces separated by '&'; a piece containing ';' is an error ("invalid
+    semicolon separator"), an empty piece is skipped, the rest is cut at the first '=' and both
+    halves are query-unescaped (an escape error is an error).  fq returns the error if there is
+    any (url.go:49-52), so the first error decides.  Fuel = number of bytes + 1. -/
+def parseQueryAux : Nat → Bytes → QueryVals → Option QueryVals
+  | 0, _, _ => none
+  | fuel + 1, t, m =>
+    if t.isEmpty then some m
+    else
+      let (piece, rest) := cutAt 38 t
+      let rest := rest.getD []
+      if piece.contains 59 then none
+      else if piece.isEmpty then parseQueryAux fuel rest m
+      else
+        let (k, v) := cutAt 61 piece
+        match urlUnescape true k, urlUnescape true (v.getD []) with
+        | some k', some v' => parseQueryAux fuel rest (appendKV k' v' m)
+        | _, _ => none
+
+def parseQuery (t : Bytes) : Option QueryVals := parseQueryAux (t.length + 1) t []
+
 /-! ## ISO-8859-1 (x/text charmap: encoder fails with RepertoireError on a rune it cannot map,
     the whole `io.Copy` then fails, encoding.go:205-208; the decoder maps every byte) -/
 
